@@ -13,7 +13,7 @@ def ops_all():
         ops.append(('rename', k, 'sym'))
         ops.append(('rename', k, 'a'))
         ops.append(('string', k))
-        for h in ('reverse', 'pop0', 'append', 'insert0', 'slice'):
+        for h in ('reverse', 'pop0', 'append', 'insert0', 'slice', 'append2'):
             ops.append(('args', k, h))
     for c in range(3):
         for i in range(3):
